@@ -439,6 +439,11 @@ def gen_deck(rng, style=None):
             array.append(1)
         else:
             array.append(10 + k)
+    if not any(u >= 10 for u in array):
+        # a lattice none of whose elements holds a filler universe leaves
+        # nothing to convert (construct_volume_t4 then fails on an empty
+        # max(): a corner outside this property, see notes/C07.md)
+        array[0] = 10
     cells = []
     reach = 0.0
     all_vecs = list(vecs) + ([np.zeros(3)] if len(vecs) == 2 else [])
